@@ -5,13 +5,13 @@ from __future__ import annotations
 from harness import c02
 
 META = dict(
-    bounds=dict(quick="same object menus as C02 (7 geometry/grid/integral formats), cycles 1, 2 and 3: the object of "
+    bounds=dict(quick="same object menus as C02 (all 13 read/write formats, sizes <= 1000 atoms), cycles 1, 2 and 3: the object of "
                       "generation 3 equals that of generation 2 attribute by attribute as terms (dtype, None-ness, keys) "
                       "and the texts of generations 2 and 3 are identical token for token",
                 thorough="as C02 thorough"),
     outside=["digit-level drift of float formatting: numbers are exact terms, so 'bit-identical' is decided up to the "
              "idealisation that printing a value that was parsed from the same format reproduces its digits",
-             "wavefunction formats (see C01 harnesses)", "QCSchema provenance (documented exception)",
+             "QCSchema provenance (documented exception)", "reading the cached default core charges is not a change (C11)",
              "QCSchema documents: five corpus fixtures with tokenised numbers, each with unknown keys injected at the "
              "top level / molecule / keywords / protocols"],
     assumptions=c02.META["assumptions"],
